@@ -11,9 +11,10 @@
       - the type-group check, _diff_str, _diff_numbers, _diff_booleans of
         Options/OptModel.v ([diff_atomF]: the DIFF side's own normalisers),
       - _diff_dict with _get_clean_to_keys_mapping (OptModel: [kmap], [ckeys],
-        [orig_key], [repr_ckey], [key_reports], [shortcutF]); the ValueError of
-        number_to_string(key, significant_digits=None) (finding K8) is the
-        entry [err_entry],
+        [orig_key], [repr_ckey], [key_reports], [shortcutF]); a failing key
+        cleaning is the entry [err_entry] (it was the ValueError of
+        number_to_string(key, significant_digits=None), finding K8; since the
+        fix d664dbb in /repo OptModel.kmap never fails and the branch is dead),
       - _diff_set through the item hashes,
       - lists and tuples through _diff_iterable_with_deephash exactly as in
         DiffIO/DiffIOModel.v (hashtable of item hashes, hashes_added / removed,
